@@ -485,7 +485,11 @@ def dict_get(E, d, k, missing):
         return missing()
     if _keyconst(k):
         b = z3.Bool('has_%s[%r]' % (d.base, k.v))
-        if not E.branch(b, 'dict has %r' % (k.v,)):
+        if E.spec_mode and getattr(E, 'spec_assume_defined', False):
+            # re-assuming a clause that was just evaluated (and checked) on the state before a havoc:
+            # the key was present there, so it is present in the abstracted state as well
+            E.assume(b)
+        elif not E.branch(b, 'dict has %r' % (k.v,)):
             return missing()
         key = k.v
         if key not in d.val_cache:
@@ -572,6 +576,9 @@ def getitem(E, obj, idx):
             i = norm_index(E, idx, n)
             return E.list_get(h, i)
         if isinstance(h, HDict):
+            if E.spec_mode:
+                # inside a clause a missing key is an undefined value (no exception, nothing provable about it)
+                return dict_get(E, h, idx, lambda: E.fresh_opaque('undefined'))
             return dict_get(E, h, idx, lambda: _raise('KeyError', idx))
         if isinstance(h, HObj):
             if h.name == 'dictview':
@@ -597,6 +604,13 @@ def getitem(E, obj, idx):
         t = known_type(E, obj)
         if t == 'tuple':
             n = len_of(obj.t)
+            ki = known_type(E, idx)
+            if ki not in ('int', 'bool'):
+                if ki is None:
+                    opaque_op_may_raise(E, 'tuple index type')
+                    E.tfacts[(idx.name, 'int')] = True
+                else:
+                    _raise('TypeError', 'tuple indices must be integers or slices, not %s' % ki)
             i = norm_index(E, idx, n)
             f = z3.Function('titem', Val, z3.IntSort(), Val)
             return VO_term(f(obj.t, i), '%s[%s]' % (obj.name, i))
